@@ -257,6 +257,29 @@ func RunFormPostTemplate(c *Ctx) {
 				Msg: fmt.Sprintf("template slot .Params.%s is not the schema name of any field of the structs passed to AuthResponseFormPost", f)})
 		}
 	}
+	// 5. conversely, every schema field of a struct that is rendered through the template has a slot: a value handed to
+	// AuthResponseFormPost that the template has no slot for is silently dropped in form_post mode.  Reviewed exceptions:
+	noSlotOK := map[string]string{
+		"refresh_token": "AccessTokenResponse field that authorization (implicit / hybrid) responses never carry",
+		"scope":         "not among the authorization response parameters of C11 (code, state, session_state, tokens, error, error_description); upstream omits it in form_post mode",
+	}
+	var ts []string
+	for t := range tags {
+		ts = append(ts, t)
+	}
+	sort.Strings(ts)
+	for _, t := range ts {
+		good := withFields[t] || noSlotOK[t] != ""
+		how := "slot present"
+		if !withFields[t] {
+			how = "reviewed exception: " + noSlotOK[t]
+		}
+		c.R.Obl(Obligation{Rule: rule + ".field-slot", Func: "op.AuthResponseFormPost", Construct: "encoded field " + t + " has a slot", Pos: rel, Discharged: good, Nontrivial: true, How: []string{how}})
+		if !good {
+			c.R.Find(Finding{Rule: rule + ".field-slot", Func: "op.AuthResponseFormPost", Construct: "encoded field " + t + " has no slot", Pos: rel,
+				Msg: fmt.Sprintf("a struct with schema field %q is passed to AuthResponseFormPost, but the form_post template has no {{with .Params.%s}} slot: the value never arrives at the redirect URI in form_post mode", t, t)})
+		}
+	}
 	c.R.Extra["template_slots"] = len(slots)
 }
 
